@@ -1,15 +1,16 @@
 #!/bin/sh
 # confirm_seed.sh <patch.diff> <demo.py> : in a scratch worktree of /repo HEAD check that the demo passes without and
 # fails with the patch, and that the pinned suite is unchanged with the patch. Prints a one-line verdict.
-P=$1; D=$2
-W=$(mktemp -d /tmp/seedwt.XXXXXX); rmdir $W
+P=$(realpath $1); D=$(realpath $2); NJ=${3:-12}
+W=$(mktemp -d /tmp/seedwt.XXXXXX); rmdir $W; L=/tmp/seedconf.$(basename $W)
 git -C /repo worktree add --detach $W HEAD -q || exit 3
 cd $W
 export OMP_NUM_THREADS=1
-/venv/bin/python $D >/tmp/seed_clean.log 2>&1; C=$?
-if ! git apply $P 2>/tmp/seed_apply.log; then echo "VERDICT patch-does-not-apply"; cd /; git -C /repo worktree remove --force $W; exit 1; fi
-/venv/bin/python $D >/tmp/seed_patched.log 2>&1; F=$?
-/venv/bin/python -m pytest -q -p no:cacheprovider -n 12 tests -x -q --deselect tests/test_ridge.py::RidgeRegressionTest::test_predict_ridge_scaler --deselect tests/test_mab.py -p no:randomly >/tmp/seed_suite.log 2>&1; S=$?
-/venv/bin/python -m pytest -q -p no:cacheprovider tests/test_mab.py >/tmp/seed_suite2.log 2>&1; S2=$?
+cp $D $W/_seed_demo.py
+PYTHONPATH=$W /venv/bin/python _seed_demo.py >$L.clean 2>&1; C=$?
+if ! git apply $P 2>$L.apply; then echo "VERDICT patch-does-not-apply"; cd /; git -C /repo worktree remove --force $W; exit 1; fi
+PYTHONPATH=$W /venv/bin/python _seed_demo.py >$L.patched 2>&1; F=$?
+/venv/bin/python -m pytest -q -p no:cacheprovider -n $NJ tests -x -q --deselect tests/test_ridge.py::RidgeRegressionTest::test_predict_ridge_scaler --deselect tests/test_mab.py -p no:randomly >$L.suite 2>&1; S=$?
+/venv/bin/python -m pytest -q -p no:cacheprovider tests/test_mab.py >$L.suite2 2>&1; S2=$?
 cd /; git -C /repo worktree remove --force $W
-echo "VERDICT demo_clean_exit=$C demo_patched_exit=$F suite_exit=$S suite_mab_exit=$S2 :: $(tail -1 /tmp/seed_suite.log) :: $(tail -1 /tmp/seed_suite2.log)"
+echo "VERDICT demo_clean_exit=$C demo_patched_exit=$F suite_exit=$S suite_mab_exit=$S2 :: $(tail -1 $L.suite) :: $(tail -1 $L.suite2)"
